@@ -61,10 +61,11 @@ LEVEL_TEXT = (
     "code) — so the clause 'also across operator restarts / every restart position' holds for restarts between "
     "completed cycles only. timeout_failed_for_good_partial ('never sleeps past T') under a sufficient guard "
     "(retry outcomes merged at once, no pending children), both halves shown necessary by witnesses. "
-    "FALSE clauses recorded as open findings with Lean witnesses: C11-F3 the timeout is counted from the record's "
-    "creation, not from the first attempt (timer with idle >= timeout is never invoked; a handler behind a slow "
-    "sibling is failed with zero invocations), C11-F4 a timer that failed for good is invoked again after a "
-    "re-spawn (filter mismatch / pause). ORACLE/TIE ONLY: several-handler activities and the parent/child "
+    "FALSE clause recorded as open finding with a Lean witness: C11-F3 for change handlers and sub-handlers the "
+    "timeout is counted from the record's creation, not from the first attempt (a handler behind a slow sibling, "
+    "or waiting for its turn under asap, is failed with zero invocations); for timers the clause holds since "
+    "9118944 (timer_first_of_series_invoked, unguarded). C11-F4 (failed timer re-spawned) is repaired by a6c10de: "
+    "timer_respawn_failure_is_last covers the timer's whole existence across re-spawns. ORACLE/TIE ONLY: several-handler activities and the parent/child "
     "composition (S tie + oracle), 'recorded as failed for good' as an event for change handlers (needs a next "
     "cycle: C03). Tied to the code by a grid on the real execute_handler_once/with_outcome (complete in "
     "thorough) and closed-loop sequences on the real processing cycle (all_at_once and asap; stale/lost/kill "
@@ -96,8 +97,7 @@ THEOREMS = [("Kopf.Props.C11", "Kopf.C11." + n) for n in [
     "loop_is_run", "loop_retries_bound", "loop_timeout_bound", "loop_delay_respected", "loop_never_sleeps_past_timeout",
     "timer_failed_never_runs", "timer_failure_is_last", "timer_retry_lt", "timer_retry_steps",
     "timer_invocations_bound", "timer_series_is_loop", "timer_timeout_bound", "timer_delay_respected",
-    "timer_first_of_series_invoked_partial", "timer_idle_timeout_never_invoked_witness",
-    "timer_respawn_runs_again_witness", "children_delay_is_earliest",
+    "timer_first_of_series_invoked", "timer_respawn_failure_is_last", "children_delay_is_earliest",
 ]]
 RULE = ("grid: errors mode x default mode x timeout {None,0,10s,70s} x runtime band (before / look-ahead "
         "boundary -1q / boundary / T-1q / T / after) x call duration x retries {None,0,1,4} x stored retries "
@@ -125,7 +125,8 @@ ASSUMPTIONS = [
     "outcomes (out of the property's scope)",
     "kopf has no per-invocation timeout: `timeout=` is only checked before a call and in the look-ahead",
     "a timer starts a new retry series only after a succeeded one; a series that failed for good is the last "
-    "thing ONE _timer task invokes (af4d77a); across a re-spawn of the task it is not (open finding C11-F4)",
+    "thing the timer invokes, in its task (af4d77a) and across re-spawns (a6c10de: forever_stopped); the re-spawn "
+    "model assumes what process_spawning_cause does: handlers in memory.forever_stopped are not spawned",
     "the spacing guarantee is relative to the moment the outcome was merged (now of with_outcome), which is "
     "not earlier than the end of the call",
     "record continuity (every cycle starts from the record the handler's last attempt produced) is the guard of "
@@ -586,6 +587,10 @@ def signature(shape: str, site: str) -> dict:
     if shape == F2_SHAPE:
         return {"site": "processing.process_changing_cause", "shape": F2_SHAPE}
     if shape == F3_SHAPE:
+        if site in ("timer", "respawn", "daemon"):
+            # a self-driven loop creates the series' record at its first execution (timers: since 9118944,
+            # after the idle wait): there the finding is repaired and the clause is a plain requirement
+            return {"site": site, "shape": F3_SHAPE + " in a self-driven loop"}
         return {"site": "execution.execute_handler_once", "shape": F3_SHAPE}
     if shape == F4_SHAPE:
         return {"site": "daemons.spawn_daemons", "shape": F4_SHAPE}
